@@ -27,6 +27,8 @@ ASSUMPTIONS = [
     "texts are ASCII; exponent numerators/denominators stay below 2^53 (int(num/gcd) in Fraction.rebase)",
     "an exponent text with denominator 0 and numerator 0 (m0:0) is outside the domain (not judged)",
     "UNIT_STANDARD/UNIT_PREFIXES are the shipped tables (no UnitEnvironment active during the check)",
+    "the documentation tables docs/source/_static/tables/*.csv are the published statement of which prefixes a "
+    "unit admits; symbols missing there (4 at present) are judged against the regenerated table only",
 ]
 EXPLANATION = ("theorems: atom parser soundness/completeness/unambiguity from kernel-decided table facts; TEXT-level "
                "expression theorem for every rendering (any blanks) of every unit AST: coefficient and exponents "
@@ -39,6 +41,7 @@ EXTRA_OBLIGATIONS = [
     "SciVerif.C03.Facts.C03_fact_F3",
     "SciVerif.C03.Facts.C03_fact_F4",
     "SciVerif.C03.Facts.C03_fact_F7",
+    "SciVerif.C03.Facts.C03_fact_prefix_lists_wellformed",
     "SciVerif.C03.Facts.C03_fact_unique",
     "SciVerif.C03.Facts.C03_fact_positive",
     "SciVerif.C03.Facts.C03_fact_prefix_definitions",
@@ -91,6 +94,20 @@ def _dims(d):
     return "[" + ",".join(out) + "]"
 
 
+def classify_prefixes(p):
+    """meaning of a `prefixes` entry of UNIT_STANDARD as a table value: True -> all, False/None -> none,
+    a list/tuple of strings -> exactly those prefixes; anything else (a bare string such as ('m'), a
+    number, a list with non-strings) is not a value of the table format -> 'malformed' (fact
+    C03_fact_prefix_lists_wellformed then fails; AtomParser's three tests pass such a value)"""
+    if p is True:
+        return "all"
+    if p is False or p is None:
+        return "none"
+    if isinstance(p, (list, tuple)) and all(isinstance(x, str) for x in p):
+        return [str(x) for x in p]
+    return "malformed"
+
+
 def extract_tables():
     """canonical python view of the live tables (also used by the dump round trip)"""
     from scinumtools.units import settings as S
@@ -100,15 +117,7 @@ def extract_tables():
         prefixes.append({"sym": sym, "mag": _q(row.magnitude), "defn": str(row.definition)})
     units = []
     for sym, row in S.UNIT_STANDARD.items():
-        p = row.prefixes
-        if p is True:
-            pref = "all"
-        elif p is False or p is None:
-            pref = "none"
-        elif isinstance(p, list):
-            pref = [str(x) for x in p]
-        else:
-            raise TypeError("prefixes column %r" % (p,))
+        pref = classify_prefixes(row.prefixes)
         d = row.definition
         if d is None:
             kind = ["base"]
@@ -147,7 +156,7 @@ def render_tables(t):
     L.append("def units : List UnitRow := [")
     rows = []
     for u in t["units"]:
-        pref = {"all": ".all", "none": ".none"}.get(u["pref"]) if isinstance(u["pref"], str) else \
+        pref = {"all": ".all", "none": ".none", "malformed": ".malformed"}.get(u["pref"]) if isinstance(u["pref"], str) else \
             ".only [%s]" % ",".join(_chars(x) for x in u["pref"])
         k = u["kind"]
         kind = ".expr %s" % _chars(k[1]) if k[0] == "expr" else "." + k[0]
@@ -342,7 +351,8 @@ CORPUS = ["dam", "xkm", "xm", "mmm", "2m", "-m", "k m", "dag", "dam2", "daar", "
           "m*s/kg2", "kg*m2/s2", "kg*m2/(s2*A)", "m/(s*(kg/mol))", " m * s ", "( m )", "m /s", "m\t*\ns",
           "2*m", "m*2", "60*s", "m/2", "2/m", "(2)*m", "(2*m)/(4*s)", "m*(1e3)", "1*m", "1e3*m", "1.5e-3*km", "-2*m", "+2*m", "2", "2.", ".5", ".", "1.2.3", "1e", "1e+-3", "1E3",
           "m/0", "0*m", "m/0.0", "2m", "m 2", "m2:3", "m2:3:4", "m:2", "m+-2", "m2:", "m2:0", "m0", "m0:5",
-          "m4:2", "m1:2*m1:2", "m*m-1", "m/m", "m/cm", "rad", "deg/rad", "%", "ppth*%", "[pi]", "[pi]2", "k[pi]",
+          "m4:2", "m1:2*m1:2", "m*m-1", "m/m", "m/cm", "%*m/cm", "ppth*km/m", "[pi]*rad/deg", "m/cm*%2",
+          "dB*m/cm", "2*%*s/min", "[alpha]-1*kg/g*PR", "J/erg*ppth1:2", "rad", "deg/rad", "%", "ppth*%", "[pi]", "[pi]2", "k[pi]",
           "#SADO", "#SADO2", "#SADO0", "#CENE/#SENE", "#foo", "#foo0", "#Zbar0", "#[euler]0", "# SADO", "k#SADO", "#", "#2", "m*#ALEN-1",
           "''", "'", "''2", "k'", "Cel", "degF", "kCel", "dB", "dBm", "BmW", "kB", "dNp", "cNp", "mNp",
           "statC", "abA2", "[emu_mu_B]", "dyn1:2*cm", "cm-1:2*g1:2/s", "m,s", "(m,s)", "((m,s))", "(m,)", "m;s"]
@@ -352,7 +362,7 @@ def admissible_pairs(t):
     keys = [p["sym"] for p in t["prefixes"]]
     out = []
     for u in t["units"]:
-        adm = keys if u["pref"] == "all" else ([] if u["pref"] == "none" else [p for p in u["pref"] if p in keys])
+        adm = keys if u["pref"] in ("all", "malformed") else ([] if u["pref"] == "none" else [p for p in u["pref"] if p in keys])
         out.append((u["sym"], adm))
     return out
 
@@ -406,6 +416,45 @@ def gen_ast(rng, t, pairs, depth):
             a = [rng.choice(["mul", "mul", "div"]), a, term(d)]
         return a
     return expr(depth)
+
+
+def gen_cancelling(rng, t, pairs):
+    """an expression whose dimensions cancel: a^e / b^e with a, b of the same non-zero dimension (different
+    symbols and/or prefixes), times 1-2 table units that are dimensionless on their own (%, ppth, [pi],
+    [alpha], PR, dB ...), optionally a number - the input class of Quantity.__init__'s "rebase if
+    dimensions are zero" block (units with dimensions are folded into the number, dimensionless ones kept)"""
+    adm = dict(pairs)
+    groups = {}
+    nodim = []
+    for u in t["units"]:
+        key = tuple(map(tuple, u["dims"]))
+        if all(n == 0 for n, _ in u["dims"]):
+            nodim.append(u["sym"])
+        else:
+            groups.setdefault(key, []).append(u["sym"])
+    g = rng.choice([v for v in groups.values()])
+
+    def atom(sym, exp):
+        pre = rng.choice(adm[sym]) if adm[sym] and rng.random() < 0.6 else ""
+        return ["atom", pre, sym, exp]
+    e = rng.choice(["", "", "2", "1:2", "3"])
+    terms = [("mul", atom(rng.choice(g), e)), ("div", atom(rng.choice(g), e))]
+    if rng.random() < 0.3:      # a second cancelling pair
+        g2 = rng.choice([v for v in groups.values()])
+        terms += [("mul", atom(rng.choice(g2), "")), ("div", atom(rng.choice(g2), ""))]
+    for _ in range(rng.choice([1, 1, 2])):
+        terms.append((rng.choice(["mul", "mul", "div"]), atom(rng.choice(nodim), rng.choice(["", "", "2", "-1", "1:2"]))))
+    if rng.random() < 0.25:
+        terms.append((rng.choice(["mul", "div"]), ["num", rng.choice(["2", "10", "0.5", "1e3"])]))
+    rng.shuffle(terms)
+    i = next(k for k, x in enumerate(terms) if x[0] == "mul")
+    terms = [terms[i]] + terms[:i] + terms[i + 1:]
+    a = terms[0][1]
+    for op, x in terms[1:]:
+        if rng.random() < 0.15:
+            x = ["par", x]
+        a = [op, a, x]
+    return a
 
 
 def with_blanks(rng, text):
@@ -546,6 +595,85 @@ def dump_roundtrip(ctx, t):
             ctx.disagreement("dump", {"unit": u["sym"]}, "magnitude round trip")
 
 
+# ---------------------------------------------------------------- documentation table of admissible prefixes
+def docs_prefix_table():
+    """{symbol: 'all' | set(prefixes)} from the published tables docs/source/_static/tables/*.csv
+    (column 'Prefixes': 'all', empty, or the prefixed symbols 'kly, Mly, Gly'; rows may group
+    symbols: '"Bm, BmW"' with '"dBm, dBmW"', '"l, L"' with '"all, all"'); None if the docs are missing"""
+    import csv
+    d = core.REPO / "docs" / "source" / "_static" / "tables"
+    out = {}
+    files = ["unit_base.csv", "unit_standard.csv", "unit_logarithmic.csv", "unit_temperature.csv", "constants.csv"]
+    if not all((d / f).exists() for f in files):
+        return None
+    for f in files:
+        with open(d / f, newline="") as fh:
+            for row in csv.DictReader(fh):
+                syms = [x.strip() for x in row["Symbol"].split(",") if x.strip()]
+                pre = [x.strip() for x in (row.get("Prefixes") or "").split(",") if x.strip()]
+                for s in syms:
+                    if pre and all(x == "all" for x in pre):
+                        out[s] = "all"
+                    else:
+                        out.setdefault(s, set())
+                        if out[s] != "all":
+                            for x in pre:
+                                if x.endswith(s) and len(x) > len(s) and not any(
+                                        x.endswith(s2) and len(s2) > len(s) for s2 in syms):
+                                    out[s].add(x[:-len(s)])
+    return out
+
+
+def docs_valid(doc, keys, text):
+    """is `text` prefix? ++ symbol for a pair the documentation admits"""
+    for s, adm in doc.items():
+        if text == s:
+            return True
+        if text.endswith(s):
+            p = text[:-len(s)]
+            if p in keys and (adm == "all" or p in adm):
+                return True
+    return False
+
+
+def docs_stream(ctx, t, impl_accepts):
+    """every prefix x every symbol: the real code accepts exactly what the published documentation
+    table of units admits (the documentation is the published specification of admissibility)"""
+    doc = docs_prefix_table()
+    if doc is None:
+        ctx.notes.append("documentation tables docs/source/_static/tables/*.csv not found: prefix admissibility "
+                         "is judged against the regenerated table only")
+        return
+    keys = [p["sym"] for p in t["prefixes"]]
+    syms = [u["sym"] for u in t["units"]]
+    missing = [s for s in syms if s not in doc]
+    ctx.count("docs.symbols_not_documented", len(missing))
+    known = {s for s in syms if s in doc}
+    for s in known:
+        for p in [""] + keys:
+            text = p + s
+            if text not in impl_accepts:
+                continue
+            # only texts every reading of which is documented can be judged
+            if any(text.endswith(m) and (text == m or text[:-len(m)] in keys) for m in missing):
+                continue
+            ctx.count("docs.judged")
+            want = docs_valid(doc, keys, text)
+            got = impl_accepts[text]
+            if want != got:
+                adm = doc[s]
+                if got:
+                    ctx.violation("accepts-invalid:prefix-not-in-documentation",
+                                  "BaseUnits/Quantity(%r) is accepted, but the published table of units "
+                                  "(docs/source/_static/tables) admits for %r only %s" % (
+                                      text, s, "all prefixes" if adm == "all" else (sorted(p2 + s for p2 in adm) or "no prefix")),
+                                  {"text": text, "stream": "docs"})
+                else:
+                    ctx.violation("rejects-valid:prefix-in-documentation",
+                                  "BaseUnits/Quantity(%r) is rejected, but the published table of units admits it" % text,
+                                  {"text": text, "stream": "docs"})
+
+
 def atoms_stream(ctx, t, exps_all):
     keys = [""] + [p["sym"] for p in t["prefixes"]]
     texts = []
@@ -561,14 +689,18 @@ def atoms_stream(ctx, t, exps_all):
         texts.append(u["sym"] + ctx.rng.choice(EXPS_QUICK[1:]))
     answers = ask_texts(ctx, texts)
     keyset = set(keys[1:])
+    accepts = {}
     for text, ans in zip(texts, answers):
-        judge(ctx, "atoms", text, ans, nontrivial=(text[:1] in keyset or text[:2] in keyset or ":" in text))
+        imp = judge(ctx, "atoms", text, ans, nontrivial=(text[:1] in keyset or text[:2] in keyset or ":" in text))
+        accepts[text] = imp["base"] != "err"
+    docs_stream(ctx, t, accepts)
     return texts
 
 
 def ast_stream(ctx, t, count):
     pairs = admissible_pairs(t)
-    asts = [gen_ast(ctx.rng, t, pairs, ctx.rng.choice([0, 1, 1, 2, 3])) for _ in range(count)]
+    asts = [gen_cancelling(ctx.rng, t, pairs) if ctx.rng.random() < 0.15 else
+            gen_ast(ctx.rng, t, pairs, ctx.rng.choice([0, 1, 1, 2, 3])) for _ in range(count)]
     texts = [render_ast(a) for a in asts]
     res = ctx.driver.ask_many([{"p": "C03", "k": "ast", "text": s, "ast": a} for s, a in zip(texts, asts)])
     for a, text, r in zip(asts, texts, res):
